@@ -13,12 +13,12 @@ import (
 
 type stdModel func(fr *Frame, fn *ssa.Function, args []Value, pc *Term, st *State, pos token.Pos, resT types.Type) callResult
 
-var stdModels map[string]stdModel
+var stdModels = map[string]stdModel{}
 
 func used(fr *Frame, name string) { fr.ex.ctx.usedModels[name]++ }
 
 func init() {
-	stdModels = map[string]stdModel{}
+
 	noop := func(name string) stdModel {
 		return func(fr *Frame, fn *ssa.Function, args []Value, pc *Term, st *State, pos token.Pos, resT types.Type) callResult {
 			used(fr, name)
